@@ -74,7 +74,15 @@ class Builder:
         """taking the member over from one base is generated only when no OTHER base resolves the key to something else
         (with several bases handing down different members the library writes onto the shared function: a known finding
         that has its own hand-written stream)"""
-        return all(self.resolve(bb, key) in (None, member) for bb in bases)
+        if not all(self.resolve(bb, key) in (None, member) for bb in bases):
+            return False
+        # only functions that carry contracts of their OWN are taken over: for them the object the class holds IS the object
+        # the history names (the checker); a bare function gets its checker from the meta-class, and that new object - what
+        # `m = Base.m` would really hand over - has no name in the history
+        has_contracts = set(o["f"] for o in self.ops if o["op"] in ("pre", "post"))
+        kind = next(iter(member))
+        fids = [v for v in member["prop"].values() if v is not None] if kind == "prop" else [member[kind]["f"]]
+        return all(f in has_contracts for f in fids)
 
     def add_inv(self, k, call=True, setattr_=False):
         self.ops.append(op("inv", k=k, c=self.next_c, call=call, setattr=setattr_))
